@@ -21,6 +21,7 @@ META = {
 def run(s):
     K.suite_workload(s)
     K.fixtures_workload(s)
+    K.large_cases(s, 24 if s.tier == 'quick' else 600, 'both')
     K.pair_histories(s)
     q = s.tier == 'quick'
     idx = 0
